@@ -21,6 +21,7 @@ package main
 // hangs. The Lean driver (Driver/HandshakeAuth.lean) computes the verdict of Model.HandshakeAuth for the same line.
 
 import (
+	"net"
 	"bytes"
 	"crypto"
 	"crypto/rand"
@@ -52,6 +53,7 @@ type c08Certs struct {
 	dual, ekuSign, ekuEnc                   gmtls.Certificate
 	rsa, p256                               []byte // DER of non-SM2 certificates
 	cExp, cNy, cEku                         gmtls.Certificate
+	ipSign, ipEnc, ip6Sign, ip6Enc          gmtls.Certificate // IP SANs 10.1.2.3 / 2001:db8::10, no DNS name
 }
 
 var (
@@ -91,6 +93,11 @@ func c08pki() (*gmPKI, *gmPKI, *c08Certs) {
 		c.cExp = m.issue(leafOpt{cn: "main client", ku: kuSign, eku: cli, keyID: 2003, notBefore: past0, notAfter: past1})
 		c.cNy = m.issue(leafOpt{cn: "main client", ku: kuSign, eku: cli, keyID: 2003, notBefore: fut0, notAfter: fut1})
 		c.cEku = m.issue(leafOpt{cn: "main client", ku: kuSign, eku: srv, keyID: 2003})
+		ip4, ip6 := []net.IP{net.ParseIP("10.1.2.3")}, []net.IP{net.ParseIP("2001:db8::10")}
+		c.ipSign = m.issue(leafOpt{cn: "ip", ips: ip4, ku: kuSign, eku: srv, keyID: 2001})
+		c.ipEnc = m.issue(leafOpt{cn: "ip", ips: ip4, ku: kuEnc, eku: srv, keyID: 2002})
+		c.ip6Sign = m.issue(leafOpt{cn: "ip", ips: ip6, ku: kuSign, eku: srv, keyID: 2001})
+		c.ip6Enc = m.issue(leafOpt{cn: "ip", ips: ip6, ku: kuEnc, eku: srv, keyID: 2002})
 	})
 	return m, o, &c08c
 }
@@ -625,6 +632,24 @@ func c08EvalAuth(args []string) string {
 	case "s-wildcard-deep": // … but not a.gm.test: a wildcard stands for exactly one label
 		sc(x.wcSign, x.wcEnc)
 		st.ccfg.ServerName = "a.gm.test"
+	// the client asks for an IP address (ServerName is an IP literal, as Dial infers it from "ip:port"): the
+	// certificates must carry it as an IP SAN
+	case "s-ip-ok":
+		sc(x.ipSign, x.ipEnc)
+		st.ccfg.ServerName = "10.1.2.3"
+	case "s-ip-other": // certificates for another address
+		sc(x.ip6Sign, x.ip6Enc)
+		st.ccfg.ServerName = "10.1.2.3"
+	case "s-ip-dnsonly": // certificates with the DNS name gm.test only
+		st.ccfg.ServerName = "10.1.2.3"
+	case "s-ip6-ok":
+		sc(x.ip6Sign, x.ip6Enc)
+		st.ccfg.ServerName = "2001:db8::10"
+	case "s-ip6-dnsonly":
+		st.ccfg.ServerName = "2001:db8::10"
+	case "s-ip6-sign-only": // only the signing certificate names the address
+		sc(x.ip6Sign, m.enc)
+		st.ccfg.ServerName = "2001:db8::10"
 	case "s-wrongname-sign":
 		sc(x.nameSign, m.enc)
 	case "s-wrongname-enc":
@@ -1143,7 +1168,7 @@ func c08ClientAuthenticated(st *c08Setup, res *pairResult, m *gmPKI) string {
 // ---- generator -------------------------------------------------------------------------------------------------------
 
 var c08ServerAttacks = []string{"s-signkey-wrong", "s-enckey-wrong", "s-untrusted", "s-untrusted-withca", "s-untrusted-sign", "s-untrusted-enc",
-	"s-expired-sign", "s-expired-enc", "s-notyet-sign", "s-notyet-enc", "s-wildcard-ok", "s-wildcard-deep", "s-wrongname-sign", "s-wrongname-enc",
+	"s-expired-sign", "s-expired-enc", "s-notyet-sign", "s-notyet-enc", "s-wildcard-ok", "s-wildcard-deep", "s-ip-ok", "s-ip-other", "s-ip-dnsonly", "s-ip6-ok", "s-ip6-dnsonly", "s-ip6-sign-only", "s-wrongname-sign", "s-wrongname-enc",
 	"s-rsa-sign", "s-rsa-enc", "s-p256-sign", "s-p256-enc", "s-swapped", "s-noku-sign", "s-noku-enc", "s-kusign-enc", "s-kuenc-sign", "s-dual", "s-wrongeku-sign", "s-wrongeku-enc",
 	"ske-otherrandoms", "ske-otherclientrandom", "ske-otherserverrandom", "ske-swaprandoms", "ske-othercert", "ske-nolen",
 	"ske-by-enckey", "ske-by-otherkey", "ske-empty", "ske-replay", "cke-forge",
